@@ -7,7 +7,6 @@ use crate::storage::free_space::verif_kani::{is_free, mk_full, noop_frag};
 mod lock_stubs;
 use lock_stubs::*;
 
-fn stub_eprint(_: std::fmt::Arguments<'_>) {}
 
 fn mk_write(sector: Option<u64>, sectors_needed: usize) -> PreparedWrite {
     let rec = Arc::new(Record::new(vec![b'k'], Vec::new(), 1));
@@ -141,6 +140,7 @@ fn c09_release_scrubbed_exact_union() {
 #[kani::stub(std::io::_eprint, stub_eprint)]
 #[kani::stub(parking_lot::raw_mutex::RawMutex::lock_slow, s_mutex_lock)]
 #[kani::stub(parking_lot::raw_mutex::RawMutex::unlock_slow, s_mutex_unlock)]
+#[kani::stub(std::sync::Arc::drop_slow, noop_drop_slow)]
 fn c19_requeue_restores_count_and_order() {
     let shard = ShardedWriteBuffer::new(0);
     let stats = Arc::new(Statistics::new());
